@@ -46,7 +46,7 @@ func vBlockRoundTrip[T any](l vLeafSpec[T]) {
 		vHistory(l)
 		return
 	}
-	n := verifIntRange("rows", 0, verifParam("maxrows", 3))
+	n := verifIntRange("rows", verifParam("minrows", 0), verifParam("maxrows", 3))
 	m := 0
 	if vMode == 0 {
 		m = vPrefixLens[verifChoice("prefix", 3)]
